@@ -190,6 +190,8 @@ Definition stepS (n : nat) (s : sstate) (o : op) : sstate * option obs :=
       | None => (s, None)
       | Some fs => let '(r, o1, ft', gv') := run_formsS n (sft s) (sgv s) [] fs VNil in (mkS ft' gv' (scodes s), Some (r, o1))
       end
+  (* fmakunbound: the name has no definition any more, for every caller *)
+  | OFmak name => (mkS (sremove name (sft s)) (sgv s) (scodes s), None)
   end.
 Fixpoint runS (n : nat) (s : sstate) (ops : list op) : list obs :=
   match ops with
@@ -341,6 +343,7 @@ Definition stepL (n : nat) (s : sstate) (o : op) (pols : list policy) : sstate *
       | Some fs => let '(r, o1, ft', gv', pols') := run_formsL n (sft s) (sgv s) [] fs VNil pols in
                    (mkS ft' gv' (scodes s), Some (r, o1), pols')
       end
+  | OFmak name => (mkS (sremove name (sft s)) (sgv s) (scodes s), None, pols)
   end.
 Fixpoint runL (n : nat) (s : sstate) (ops : list op) (pols : list policy) : list obs :=
   match ops with
@@ -407,3 +410,47 @@ Definition pols_step (n : nat) (m : mstate) (o : op) : list policy :=
   end.
 Fixpoint pols_run (n : nat) (m : mstate) (ops : list op) : list policy :=
   match ops with [] => [] | o :: r => pols_step n m o ++ pols_run n (fst (stepM n m o)) r end.
+
+(* ---- fmakunbound: guard -----------------------------------------------------------------------------------
+   slip's fmakunbound removes the creator of the name but neither resets the registered Lambda nor the compiled
+   callers (known findings C08-fmakunbound-...): while the name is unbound a caller compiled earlier still runs the
+   old definition, and a call of the name compiled meanwhile registers a new placeholder that orphans the old
+   Lambda.  Theorems: histories without OFmak (`no_fmak`).  Correspondence: the finer executable guard `fguards`:
+   an OFmak f is inside the guard when it is followed - after reads only - by the evaluation or compilation of a
+   code object whose FIRST form is a top-level defun of f whose body does not mention f; after that form the
+   name has its creator back and the registered Lambda the new definition.  Everything after an OFmak that is not
+   of this shape is outside the guard. *)
+Fixpoint no_fmak (ops : list op) : bool :=
+  match ops with [] => true | OFmak _ :: _ => false | _ :: r => no_fmak r end.
+Fixpoint mentions (f : string) (e : sexp) : bool :=
+  match e with
+  | SSym x => String.eqb x f
+  | SList _ xs => (fix go (l : list sexp) : bool := match l with [] => false | x :: r => mentions f x || go r end) xs
+  | _ => false
+  end.
+Definition redefines_first (f : string) (fs : list tform) : bool :=
+  match fs with
+  | TForm e :: _ => match parse_defun e with
+                    | Some (nm, ps, body) => String.eqb nm f && negb (existsb (mentions f) body)
+                    | None => false end
+  | _ => false
+  end.
+(* one flag per observation (OCompile / ORun), following the code store of M's run; `pend`: the name made unbound
+   and not yet redefined *)
+Fixpoint fguards (n : nat) (m : mstate) (g : bool) (pend : option string) (ops : list op) : list bool :=
+  match ops with
+  | [] => []
+  | o :: r =>
+      let m' := fst (stepM n m o) in
+      match o with
+      | OLoad _ _ => fguards n m' g pend r
+      | OFmak f => fguards n m' (g && match pend with None => true | Some _ => false end) (Some f) r
+      | OCompile cid | ORun cid =>
+          match nlookup cid (codes m) with
+          | None => fguards n m' g pend r
+          | Some fs =>
+              let g' := g && match pend with None => true | Some f => redefines_first f fs end in
+              g' :: fguards n m' g' None r
+          end
+      end
+  end.
